@@ -47,6 +47,8 @@ INITS = {
     "looseY+packedX/sym": dict(loose={M: Y}, packed={M: X}, head=("sym", M)),
     "looseX/detached": dict(loose={M: X}, packed={}, head=("sha", X)),
     "packedX+n/sym": dict(loose={N: Y}, packed={M: X, N: X}, head=("sym", M)),
+    # a bystander that lives in packed-refs only: it must survive whatever happens to m
+    "packedX+packedN/sym": dict(loose={}, packed={M: X, N: Y}, head=("sym", M)),
 }
 
 
